@@ -120,3 +120,36 @@ def rerun(body):
         print(out)
         return 1 if rc == 1 else (0 if rc == 0 else 2)
     return 2
+
+
+def run_all(units, tier='thorough'):
+    """Thorough tier: execute every registered replay of the given units on the current tree.
+    Returns a list of dicts(unit, what, passed, observed, how). Dynamic, NOT proof."""
+    out = []
+    binary = None
+    seen = set()
+    for u in units:
+        for fn, entries in REGISTRY.get(u, {}).items():
+            for e in entries:
+                key = json.dumps(e, sort_keys=True)
+                if key in seen:
+                    continue
+                seen.add(key)
+                try:
+                    if e['kind'] == 'egg':
+                        if binary is None:
+                            binary, note = build_egglog(3600)
+                            if binary is None:
+                                out.append(dict(unit=u, what=e['file'], passed=None, observed=note, how=''))
+                                continue
+                        path = os.path.join(VERIF, e['file'])
+                        rc, o = run_egg(binary, path, timeout=600, args=e.get('args', ()))
+                        out.append(dict(unit=u, what=e['file'] + ' ' + ' '.join(e.get('args', ())), passed=(rc == 0), observed=o[-800:], kind='egg', file=path, args=list(e.get('args', ())),
+                                        how=f'cd {REPO} && cargo build --offline --bin egglog && target/debug/egglog {" ".join(e.get("args", ()))} {path}'))
+                    elif e['kind'] == 'harness':
+                        rc, o = run_harness(e['name'], 3600)
+                        out.append(dict(unit=u, what='harness ' + e['name'], passed=(rc == 0) if rc in (0, 1) else None, observed=o[-800:], kind='harness', name=e['name'],
+                                        how=f'replays/{e["name"]} (cargo run --offline --release against {REPO})'))
+                except subprocess.TimeoutExpired:
+                    out.append(dict(unit=u, what=str(e), passed=None, observed='timeout', how=''))
+    return out
